@@ -96,17 +96,21 @@ def _expire_spec(ex, st, post, result):
     import z3
     from pyvc.values import eq
     self_ = post.env['self']
-    rb = st.heap[self_.ref]['_refresh_before']
+    h = st.heap[self_.ref]
+    rb, fixed = h['_refresh_before'], h['_expire_timestamp']
     calls = T.evs(st, 'before_timestamp_from_options')
     truthy = ex.truth(st, rb)
+    explicit = z3.Not(fixed.isnone)
     if calls:
         ev = calls[-1][1]
-        yield ('refresh_rule_takes_precedence', z3.And(truthy, eq(result, ev.result), z3.BoolVal(len(calls) == 1),
-                                                      eq(ev.args[0], rb)),
-               'with a refresh rule in force the threshold is computed from it on every call')
+        yield ('refresh_rule_of_the_cache_is_evaluated_on_every_call',
+               z3.And(z3.Not(explicit), truthy, eq(result, ev.result), z3.BoolVal(len(calls) == 1), eq(ev.args[0], rb)),
+               'without an explicitly set threshold, a refresh rule of the cache is in force: the threshold is computed from it on every call')
     else:
-        yield ('fixed_threshold_otherwise', z3.And(z3.Not(truthy), eq(result, st.heap[self_.ref]['_expire_timestamp'])),
-               'without a refresh rule the configured expire timestamp is returned')
+        yield ('explicit_threshold_wins_then_no_rule_means_none',
+               z3.And(z3.Or(explicit, z3.Not(truthy)), eq(result, fixed)),
+               'a threshold that was set explicitly (the refresh_before of a seed task) is returned as it is - it is not overridden '
+               'by the refresh rule the cache has for serving; without either, tiles do not expire')
 
 
 contract(C + 'TileManager.expire_timestamp', props=['C13'],
